@@ -542,6 +542,7 @@ def language_traps(ctx, fns, clause):
                    ("TRAP-late", "closures created in a loop do not read the loop variable after the iteration"),
                    ("TRAP-default", "mutable default arguments are neither mutated nor handed out"),
                    ("TRAP-shared", "dict.fromkeys is not given a mutable value"),
+                   ("TRAP-negzero", "a slice x[-n:] is taken only where n >= 1 is established"),
                    ("TRAP-getter", "the result of operator.itemgetter(*names) is not consumed as a sequence unless there are at least two names")):
         ctx.rule(r_, t_)
     n = {"iter": 0, "late": 0, "default": 0, "shared": 0}
@@ -681,6 +682,23 @@ def language_traps(ctx, fns, clause):
                     ctx.ob("TRAP-iter", f, f"module-level {name} = {norm(v)[:50]}", uses[0], False,
                            f"{name} is ONE iterator object created when the module is imported; {f.name}() consumes it, so every call "
                            f"continues where the previous one stopped (and later calls get nothing)", clause=clause)
+    # ---- TRAP-negzero: x[-n:] is meant as "the last n", but for n == 0 it is x[0:], everything
+    from ..guards import lower_bound
+    for fn in fns:
+        for f in _all_fns([fn]):
+            for sub in [x for x in body_nodes(f.node) if isinstance(x, ast.Subscript) and isinstance(x.slice, ast.Slice)]:
+                lo = sub.slice.lower
+                if not (isinstance(lo, ast.UnaryOp) and isinstance(lo.op, ast.USub) and sub.slice.upper is None and sub.slice.step is None):
+                    continue
+                if isinstance(lo.operand, ast.Constant):
+                    continue
+                n["negzero"] = n.get("negzero", 0) + 1
+                lb = lower_bound(ctx.repo, f, lo.operand, sub)
+                ok = lb is not None and lb >= 1
+                ctx.ob("TRAP-negzero", f, norm(sub)[:60], sub, ok,
+                       f"{norm(lo.operand)} >= {lb} here" if ok else
+                       f"{norm(sub)[:50]} takes `the last {norm(lo.operand)}` elements, but -0 is 0: when {norm(lo.operand)} is 0 the slice is the "
+                       f"whole sequence, not an empty one (no test on this path excludes 0)", clause=clause)
     # ---- TRAP-getter: operator.itemgetter(*names) returns a bare element, not a 1-tuple, when there is exactly one name
     for fn in fns:
         for f in _all_fns([fn]):
